@@ -50,7 +50,7 @@ func judgeC05(c *fw.Ctx, sc *SnapCase) {
 		if st.split+st.collapseLine+st.collapsePoint > 0 {
 			nt = true
 		}
-		for _, z := range o.Case.IDs {
+		for _, z := range o.UIDs {
 			c.Rec.Count("level_cases")
 			if _, ok := o.Got[z]; !ok {
 				c.Rec.Count("whole_polygon_collapse(id absent)")
